@@ -470,5 +470,8 @@ func tokenSelsFor(c *contractDef, method string) []string {
 		// tokens with a pair on the base state's network: ZNN (not owned), the foreign token flagged Owned, the bridge's own
 		return []string{"znn", "locked", "bridge-owned", "qsr", "custom", "none"}
 	}
+	if _, zts := requiredAmount(c, method); zts == qsr {
+		return []string{"qsr", "znn", "custom", "none", "locked", "bridge-owned"}
+	}
 	return tokenSels
 }
